@@ -44,6 +44,9 @@
 #include <pthread.h>
 #include <semaphore.h>
 #include <sys/wait.h>
+#include <sys/syscall.h>
+#include <fcntl.h>
+#include <dirent.h>
 #include <qb/qbdefs.h>
 #include <qb/qblist.h>
 #include <qb/qblog.h>
@@ -330,21 +333,56 @@ static void emit_step(int tid, int from, int op, long arg)
 	vt_end();
 }
 
-/* wait until thread tid has parked or terminated; 0 = ok, -1 = watchdog */
+/* are all threads of this process other than the scheduler asleep (blocked in sem_wait / pthread_join / a
+ * futex)?  Then nobody is left to wake the thread the scheduler waits for. */
+static int all_others_sleeping(void)
+{
+	int self = (int)syscall(SYS_gettid);
+	DIR *d = opendir("/proc/self/task");
+	if (!d) return 0;
+	struct dirent *e;
+	int all = 1;
+	while (all && (e = readdir(d)) != NULL) {
+		int ktid = atoi(e->d_name);
+		if (ktid <= 0 || ktid == self) continue;
+		char path[64], buf[512];
+		snprintf(path, sizeof(path), "/proc/self/task/%d/stat", ktid);
+		int fd = open(path, O_RDONLY);
+		if (fd < 0) continue;		/* gone meanwhile */
+		ssize_t n = read(fd, buf, sizeof(buf) - 1);
+		close(fd);
+		if (n <= 0) continue;
+		buf[n] = 0;
+		char *p = strrchr(buf, ')');
+		if (!(p && p[1] == ' ' && p[2] == 'S')) all = 0;
+	}
+	closedir(d);
+	return all;
+}
+
+/* wait until thread tid has parked or terminated; 0 = ok, -1 = it does not get there.
+ * The watchdog is WATCHDOG_MS; when every thread but the scheduler is seen asleep in SLEEP_POLLS consecutive
+ * polls of POLL_MS nobody is left to wake the awaited thread, so the verdict comes much sooner. */
+#define POLL_MS 20
+#define SLEEP_POLLS 15
 static int await(int tid)
 {
-	struct timespec dl;
-	clock_gettime(CLOCK_REALTIME, &dl);
-	dl.tv_sec += WATCHDOG_MS / 1000;
-	for (;;) {
+	int asleep = 0;
+	for (int waited = 0; waited < WATCHDOG_MS; waited += POLL_MS) {
 		__sync_synchronize();
 		if (T[tid].status == ST_PARKED || T[tid].status == ST_TERMINATED) return 0;
-		if (sem_timedwait(&evsem, &dl) == -1) {
-			if (errno == EINTR) continue;
-			__sync_synchronize();
-			return (T[tid].status == ST_PARKED || T[tid].status == ST_TERMINATED) ? 0 : -1;
-		}
+		struct timespec dl;
+		clock_gettime(CLOCK_REALTIME, &dl);
+		dl.tv_nsec += POLL_MS * 1000000L;
+		if (dl.tv_nsec >= 1000000000L) { dl.tv_sec++; dl.tv_nsec -= 1000000000L; }
+		if (sem_timedwait(&evsem, &dl) == 0 || errno == EINTR) { asleep = 0; continue; }
+		__sync_synchronize();
+		if (T[tid].status == ST_PARKED || T[tid].status == ST_TERMINATED) return 0;
+		asleep = all_others_sleeping() ? asleep + 1 : 0;
+		if (asleep >= SLEEP_POLLS) return -1;
 	}
+	__sync_synchronize();
+	return (T[tid].status == ST_PARKED || T[tid].status == ST_TERMINATED) ? 0 : -1;
 }
 
 /* qb_log_thread_start created a logging thread in this step: let it run up to its first hook point, so that
@@ -460,8 +498,9 @@ static void free_hook(int point, const void *obj, long a, long b)
 	if (point != QB_VP_LOGT_W_WAIT) return;
 	pthread_mutex_lock(&gate_mx);
 	while (gate_closed) pthread_cond_wait(&gate_cv, &gate_mx);
+	long us = slow_us;
 	pthread_mutex_unlock(&gate_mx);
-	if (slow_us) usleep(slow_us);
+	if (us) usleep(us);
 }
 
 static int run_free(char **lines, int n)
@@ -488,7 +527,7 @@ static int run_free(char **lines, int n)
 			}
 		} else if (!strcmp(op, "Hold")) gate(1);
 		else if (!strcmp(op, "Release")) gate(0);
-		else if (!strcmp(op, "Slow")) slow_us = vt_argi(&L, 1);
+		else if (!strcmp(op, "Slow")) { pthread_mutex_lock(&gate_mx); slow_us = vt_argi(&L, 1); pthread_mutex_unlock(&gate_mx); }
 		else if (!strcmp(op, "Sleep")) usleep(vt_argi(&L, 1));
 		else {
 			int c = opcode(op);
